@@ -113,9 +113,10 @@ def apply(sc, belief, g, act, args):
         raise ValueError(act)
 
 
-def walk(ctx, front, routes, ncalls, g, w, init, labels, tag, learn=None):
-    """Returns number of stimuli applied."""
-    sc = Scenario(front, ['x', 'y'][:routes], ncalls)
+def walk(ctx, front, routes, ncalls, g, w, init, labels, tag, learn=None, k=0):
+    """Returns number of stimuli applied. k: index of the path, selects the long-prefix length and the Nack reasons."""
+    long_len = regkit.LONG_LENS[k % len(regkit.LONG_LENS)]
+    sc = Scenario(front, ['x', 'y'][:routes], ncalls, long_len=long_len, variant=k)
     reported = set()
     done = []
     try:
@@ -125,7 +126,7 @@ def walk(ctx, front, routes, ncalls, g, w, init, labels, tag, learn=None):
                 break
             apply(sc, belief, g, act, args)
             done.append([act] + list(args))
-            robj = {'kind': 'path', 'front': front, 'routes': routes, 'ncalls': ncalls, 'labels': done}
+            robj = {'kind': 'path', 'front': front, 'routes': routes, 'ncalls': ncalls, 'labels': done, 'long_len': long_len, 'variant': k}
             obs = obs_of(sc.post())
             for chk, msg, hexw in sc.wire_errors:
                 ctx.violation('C17/%s/wire/%s' % (front, chk), 'command Interest fails strict check %s: %s' % (chk, msg), robj)
@@ -150,7 +151,8 @@ def walk(ctx, front, routes, ncalls, g, w, init, labels, tag, learn=None):
         bg = sc.background_errors()
         if bg:
             ctx.violation('C17/%s/background-error' % front, 'loop exception handler: %s' % bg[0],
-                          {'kind': 'path', 'front': front, 'routes': routes, 'ncalls': ncalls, 'labels': done})
+                          {'kind': 'path', 'front': front, 'routes': routes, 'ncalls': ncalls, 'labels': done, 'long_len': long_len,
+                           'variant': k})
     finally:
         sc.close()
     return len(done)
@@ -177,7 +179,7 @@ def stage_b(ctx, front, name, cs, routes, ncalls, max_paths=None, learn=None):
         if key in seen or not labels:
             continue
         seen.add(key)
-        k = walk(ctx, front, routes, ncalls, g, w, init, labels, name, learn)
+        k = walk(ctx, front, routes, ncalls, g, w, init, labels, name, learn, k=n)
         n += 1
         ctx.traces += 1
         ctx.evaluations += k
@@ -332,7 +334,9 @@ def random_resp(rng):
 
 def record(front, routes, rng, ncalls=8, nev=40):
     rts = ['x', 'y'][:routes]
-    sc = Scenario(front, rts, ncalls)
+    long_len = rng.choice(regkit.LONG_LENS)
+    variant = rng.randrange(len(regkit.NACK_REASONS))
+    sc = Scenario(front, rts, ncalls, long_len=long_len, variant=variant)
     ev = []
     try:
         d = rng.randrange(2)
@@ -364,7 +368,7 @@ def record(front, routes, rng, ncalls=8, nev=40):
             d = 1 if rng.random() < 0.35 else 0
             if a == 'Call':
                 v = rng.choice(['register', 'unregister'])
-                p = rng.choice(['a', 'b', 'root'])
+                p = rng.choice(['a', 'long', 'root'])
                 wf = front == 'legacy' and v == 'register' and p not in filt and rng.random() < 0.5
                 if wf:
                     filt.add(p)
@@ -401,7 +405,7 @@ def record(front, routes, rng, ncalls=8, nev=40):
         bg = sc.background_errors()
     finally:
         sc.close()
-    return {'front': front, 'routes': routes, 'ev': ev}, wire_errors, bg
+    return {'front': front, 'routes': routes, 'long_len': long_len, 'variant': variant, 'ev': ev}, wire_errors, bg
 
 
 def judge(ctx, front, routes, recs, tag, forced=None):
@@ -410,7 +414,7 @@ def judge(ctx, front, routes, recs, tag, forced=None):
         for r in recs:
             f.write(json.dumps(r) + '\n')
     cfgp = os.path.join(tlc.BUILD, 'NfdRegTrace_%s_%d.cfg' % (front, routes))
-    tlc.write_cfg(cfgp, spec='TSpec', constants=consts(front, 8, ['a', 'b', 'root'], routes, 2, 100000, ALL_KINDS,
+    tlc.write_cfg(cfgp, spec='TSpec', constants=consts(front, 8, ['a', 'long', 'root'], routes, 2, 100000, ALL_KINDS,
                                                        *((forced[1], forced[0]) if forced else (DEVS_OF[front],))),
                   invariants=['TypeOK'], constraints=['Mark'], postcondition='Post')
     r, rejected = tlc.validate_traces('NfdRegTrace', cfgp, tf, tag='c17tr')
@@ -576,7 +580,7 @@ def run(ctx):
             has, unk = forced[front]
             stage_b(ctx, front, 'replies', consts(front, 2, ['root'], 0, 1, 1, ALL_KINDS, unk, has), 0, 2,
                     max_paths=ctx.pick(500, None))
-            stage_b(ctx, front, 'conc', consts(front, 3, ['a'], 0, 1, ctx.pick(1, 2), ctx.pick(['r200'], ['r200', 'r400']), unk, has), 0, 3,
+            stage_b(ctx, front, 'conc', consts(front, 3, ['long'], 0, 1, ctx.pick(1, 2), ctx.pick(['r200'], ['r200', 'r400']), unk, has), 0, 3,
                     max_paths=ctx.pick(500, 15000))
             # one declared route, two connections, one user register in between: 3 commands fit in clock 0..2
             stage_b(ctx, front, 'routes', consts(front, 3, ['a'], 1, 2, 2, ['r200', 'nack'], unk, has, verbs=('register',)), 1, 3,
@@ -609,7 +613,8 @@ def replay(ctx, path):
     with open(path) as f:
         obj = json.load(f)
     if obj.get('kind') == 'path':
-        sc = Scenario(obj['front'], ['x', 'y'][:obj['routes']], obj['ncalls'])
+        sc = Scenario(obj['front'], ['x', 'y'][:obj['routes']], obj['ncalls'], long_len=obj.get('long_len', 200),
+                      variant=obj.get('variant', 0))
         calls, answered = {}, set()
         try:
             for lab in obj['labels']:
